@@ -213,6 +213,13 @@ def _check_type_requirements_for_field(
         return
 
     if field.type.has_field("atomic_type"):
+        if "infinity" in (
+            field.location.size.type.integer.minimum_value.lstrip("-"),
+            field.location.size.type.integer.maximum_value.lstrip("-"),
+        ):
+            # An unbounded size is reported by the check on the bounds of
+            # run-time integer expressions; there is nothing to compare here.
+            return
         field_min_size = (
             int(field.location.size.type.integer.minimum_value)
             * type_definition.addressable_unit
